@@ -43,5 +43,4 @@ class Rewind:
                 self.restores.append(n.id)
             else:
                 self.rewinds.append(n.id)
-        if self.rewinds and not self.restores:
-            raise AnalysisError("_process_resend: rewind found but no restoring write")
+        # no restoring write of exactly the saved value: the rules report it (C06.bracket), not the loader
